@@ -62,12 +62,12 @@ def register(reg):
     reg.add(Spec(PD + "pop_smallest", dict(self="obj[priority_dict]"), "Node", trusted=True,
                  requires=["qsize(self) > 0"], modifies=["priority_dict.q"],
                  ensures=["old(inq(self, result))", "all(implies(old(inq(self, n)), old(prio(self, result)) <= old(prio(self, n))) for n in refs(Node))",
-                          "not inq(self, result)", "all(implies(n != result, inq(self, n) == old(inq(self, n)) and same(prio(self, n), old(prio(self, n)))) for n in refs(Node))",
+                          "not inq(self, result)", "all(implies(n is not result, inq(self, n) == old(inq(self, n)) and same(prio(self, n), old(prio(self, n)))) for n in refs(Node))",
                           "qsize(self) == old(qsize(self)) - 1", "unchanged_except('priority_dict.q', self)"]))
     reg.add(Spec(PD + "__setitem__", dict(self="obj[priority_dict]", key="Node", val="float"), "none", trusted=True,
                  modifies=["priority_dict.q"],
                  ensures=["inq(self, key) and same(prio(self, key), val)",
-                          "all(implies(n != key, inq(self, n) == old(inq(self, n)) and same(prio(self, n), old(prio(self, n)))) for n in refs(Node))",
+                          "all(implies(n is not key, inq(self, n) == old(inq(self, n)) and same(prio(self, n), old(prio(self, n)))) for n in refs(Node))",
                           "unchanged_except('priority_dict.q', self)"]))
 
     reg.add(Spec("tracklib.core.network:Node.distanceTo", dict(self="Node", node="Node"), "float", trusted=True,
@@ -75,14 +75,14 @@ def register(reg):
 
     # ---- the graph as the router sees it
     # node u of the network: registered under its own id
-    ISNODE = "(%s.id in self.NODES and self.NODES[%s.id] == %s)"
+    ISNODE = "(%s.id in self.NODES and self.NODES[%s.id] is %s)"
     isn = lambda n: ISNODE % (n, n, n)
     # slot t of u's outgoing list: edge e = EDGES[NEXT_EDGES[u.id][t]], far end v
     EDGE_OF = "self.EDGES[self.NEXT_EDGES[%s.id][%s]]"
     FAR = "(%s.source if %s.target.id == %s.id else %s.target)"
     WFNET = [
         # ids identify nodes
-        "all(implies(%s and %s and a.id == b.id, a == b) for a in refs(Node) for b in refs(Node))" % (isn("a"), isn("b")),
+        "all(implies(%s and %s and a.id == b.id, a is b) for a in refs(Node) for b in refs(Node))" % (isn("a"), isn("b")),
         # every listed edge exists, joins network nodes, has a non-negative weight
         "all(implies(%s, u.id in self.NEXT_EDGES) for u in refs(Node))" % isn("u"),
         "all(implies(%s and 0 <= t and t < len(self.NEXT_EDGES[u.id]), self.NEXT_EDGES[u.id][t] in self.EDGES and "
@@ -99,25 +99,77 @@ def register(reg):
     QNODES = "all(implies(inq(fil, n), %s) for n in refs(Node))" % isn("n")
     ORDER = ("all(implies(%s and u.visite and inq(fil, k), u.poids <= prio(fil, k)) for u in refs(Node) for k in refs(Node))" % isn("u"))
     SETTLED_REACHED = "all(implies(%s and n.visite, n.poids != -1) for n in refs(Node))" % isn("n")
-    INV = WFNET + LABELS + [RELAXED, QUEUE, QNODES, ORDER, SETTLED_REACHED]
+    AE = "self.EDGES[v.antecedent_edge]"
+    TREE = ("all(implies(%s and v.poids != -1 and v is not SRC, v.antecedent is not None and %s and v.antecedent.visite and "
+            "v.antecedent_edge in self.EDGES and %s.id == v.antecedent_edge and "
+            "any(self.NEXT_EDGES[v.antecedent.id][t] == v.antecedent_edge for t in range(0, len(self.NEXT_EDGES[v.antecedent.id]))) and "
+            "(%s.source if %s.target.id == v.antecedent.id else %s.target) is v and v.poids == v.antecedent.poids + %s.weight) for v in refs(Node))"
+            % (isn("v"), isn("v.antecedent"), AE, AE, AE, AE, AE))
+    INV = WFNET + LABELS + [RELAXED, QUEUE, QNODES, ORDER, SETTLED_REACHED, TREE]
     IN = dict(self="Network", fil="obj[priority_dict]", pere="Node", source="any", target="opt[any]", cut="float")
     reg.add(Spec(NW + "run_routing_forward", IN, "none", ghost=dict(SRC="Node"),
                  region=("while len(fil) != 0:", None), let=dict(heuristic="0", output_dict="None"),
-                 requires=INV + ["self.routing_mode != 1", "not isnan(cut)"],
+                 requires=INV + ["self.routing_mode != 1", "not isnan(cut)",
+                                 "all(implies(%s, not n.visite) for n in refs(Node))" % isn("n")],    # state left by __resetFlags
                  modifies=["Node.poids", "Node.visite", "Node.antecedent", "Node.antecedent_edge", "priority_dict.q"],
-                 loops={"1": LoopSpec(inv=INV + ["unchanged_except('priority_dict.q', fil)"]),
+                 loops={"1": LoopSpec(inv=INV + ["unchanged_except('priority_dict.q', fil)", "heuristic == 0",
+                                                 "pere.visite or all(implies(%s, not n.visite) for n in refs(Node))" % isn("n"),
+                                                 "all(implies(%s and u.visite, u.poids <= pere.poids) for u in refs(Node))" % isn("u")]),
                         "1.1": LoopSpec(index="t_", inv=WFNET + LABELS + [
                             # the settled set now includes pere; its arcs in slots < t_ are relaxed
                             "%s and pere.visite and pere.poids != -1 and not inq(fil, pere)" % isn("pere"),
-                            ("all(implies(%s and u.visite and 0 <= t and t < len(self.NEXT_EDGES[u.id]) and (u != pere or t < t_), "
+                            ("all(implies(%s and u.visite and 0 <= t and t < len(self.NEXT_EDGES[u.id]) and (u is not pere or t < t_), "
                              "%s.poids != -1 and %s.poids <= u.poids + %s.weight) for u in refs(Node) for t in ints)"
                              % (isn("u"), far("u", "t"), far("u", "t"), EDGE_OF % ("u", "t"))),
-                            QUEUE, QNODES, SETTLED_REACHED,
+                            QUEUE, QNODES, SETTLED_REACHED, TREE,
                             # every settled label and pere's label bound the queue from below
                             "all(implies(%s and u.visite and inq(fil, k), u.poids <= prio(fil, k)) for u in refs(Node) for k in refs(Node))" % isn("u"),
-                            "unchanged_except('priority_dict.q', fil)"])},
-                 ensures=[("labels", " and ".join(LABELS)), ("relaxed", RELAXED),
-                          ("queue-consistent", QUEUE), ("settled-before-queued", ORDER)]))
+                            # labels settle in non-decreasing order: nothing settled is above the node being expanded
+                            "all(implies(%s and u.visite, u.poids <= pere.poids) for u in refs(Node))" % isn("u"),
+                            "unchanged_except('priority_dict.q', fil)", "heuristic == 0"])},
+                 ensures=[("labels", " and ".join(LABELS)), ("relaxed", RELAXED), ("settled-before-queued", ORDER), ("predecessor-tree", TREE),
+                          ("queue-consistent-except-the-node-in-hand",
+                           "all(implies(%s and n is not pere, inq(fil, n) == (n.poids != -1 and not n.visite) and implies(inq(fil, n), prio(fil, n) == n.poids)) "
+                           "for n in refs(Node))" % isn("n")),
+                          ("exit-queue-empty-or-stopped-at-a-least-node",
+                           "all(not inq(fil, k) for k in refs(Node)) or (%s and not pere.visite and pere.poids != -1 and not inq(fil, pere) and "
+                           "(pere.poids > cut or (target is not None and pere.id == target)) and "
+                           "all(implies(inq(fil, k), pere.poids <= prio(fil, k)) for k in refs(Node)) and "
+                           "all(implies(%s and u.visite, u.poids <= pere.poids) for u in refs(Node)))" % (isn("pere"), isn("u"))),
+                          ("queue-empty-means-every-reached-node-is-settled",
+                           "implies(all(not inq(fil, k) for k in refs(Node)), all(implies(%s and n.poids != -1 and n is not pere, n.visite) for n in refs(Node)))" % isn("n")),
+                          ("nothing-settled-exceeds-the-node-in-hand", "all(implies(%s and u.visite, u.poids <= pere.poids) for u in refs(Node))" % isn("u")),
+                          ("node-in-hand-settled-unless-stopped-or-nothing-settled",
+                           "pere.visite or pere.poids > cut or (target is not None and pere.id == target) or "
+                           "all(implies(%s, not n.visite) for n in refs(Node))" % isn("n"))]))
+
+
+def lemmas(reg):
+    """walk-lower-bound.  Nodes are integers; d = label, settled / reached as predicates; ARC(u, v, w): an arc u -> v
+    of weight w (a slot of u's outgoing list whose far end is v); p = the node in hand at exit (last popped).
+    Exit-state facts (all post-conditions of the region, rewritten over these symbols):
+      RELAXED  settled(u) and ARC(u, v, w)  ->  reached(v) and d(v) <= d(u) + w
+      MONO     settled(u) -> d(u) <= d(p);      MINQ  reached(n) and not settled(n) -> d(n) >= d(p)
+    For an arbitrary walk x(0) = s, ..., with accumulated weight acc, by induction on k:
+      P(k):  (settled(x(k)) and d(x(k)) <= acc(k))  or  acc(k) >= d(p)
+    hence a walk ending at p, or at any settled node, weighs at least that node's label."""
+    I, R, B = z3.IntSort(), z3.RealSort(), z3.BoolSort()
+    d = z3.Function("d!w", I, R)
+    settled, reached = z3.Function("settled!w", I, B), z3.Function("reached!w", I, B)
+    ARC = z3.Function("arc!w", I, I, R, B)
+    x, wt, acc = z3.Function("x!w", I, I), z3.Function("wt!w", I, R), z3.Function("acc!w", I, R)
+    u, v, n, k, s_, p = z3.Ints("u!w v!w n!w k!w s!w p!w")
+    w = z3.Real("w!w")
+    relaxed = z3.ForAll([u, v, w], z3.Implies(z3.And(settled(u), ARC(u, v, w)), z3.And(reached(v), d(v) <= d(u) + w)))
+    mono = z3.ForAll([n], z3.Implies(settled(n), z3.And(reached(n), d(n) <= d(p))))
+    minq = z3.ForAll([n], z3.Implies(z3.And(reached(n), z3.Not(settled(n))), d(n) >= d(p)))
+    walk = [x(0) == s_, acc(0) == 0, acc(k + 1) == acc(k) + wt(k), wt(k) >= 0, ARC(x(k), x(k + 1), wt(k))]
+    P = lambda j: z3.Or(z3.And(settled(x(j)), d(x(j)) <= acc(j)), acc(j) >= d(p))
+    src = [d(s_) == 0, reached(s_), z3.Or(settled(s_), s_ == p)]
+    return [("walk-lower-bound:base", [relaxed, mono, minq] + walk + src, P(z3.IntVal(0))),
+            ("walk-lower-bound:step", [relaxed, mono, minq, k >= 0] + walk + [P(k)], P(k + 1)),
+            ("walk-lower-bound:conclusion-settled-end", [mono, P(k), settled(x(k))], d(x(k)) <= acc(k)),
+            ("walk-lower-bound:conclusion-node-in-hand", [P(k), x(k) == p, z3.Not(settled(p))], d(p) <= acc(k))]
 
 
 FUNCTIONS = [NW + "run_routing_forward"]
